@@ -42,9 +42,10 @@ def bounds_of(spec):
 class Landscape:
     """the synthetic NLL as a pure function of {name: value} and the coordinate flags of the complex parameters"""
 
-    def __init__(self, names, cplx_flags, seed, gauss=None, linear=False, centre=None):
+    def __init__(self, names, cplx_flags, seed, gauss=None, linear=False, centre=None, kind=None):
         import numpy as np
         self.np = np
+        self.kind = kind  # "l1": sum a_i |w_i - c_i| (kinks: no Wolfe step exists near them)
         self.names = list(names)
         self.idx = {n: i for i, n in enumerate(self.names)}
         self.cplx = dict(cplx_flags)  # complex name -> polar?
@@ -97,6 +98,8 @@ class Landscape:
             f = self.offset + float(np.dot(self.lin, w))
             return f, self.lin.copy(), np.zeros((len(w), len(w)))
         dw = w - self.c
+        if self.kind == "l1":
+            return self.offset + float(np.sum(self.a * np.abs(dw))), self.a * np.sign(dw), np.zeros((len(w), len(w)))
         vd = float(np.dot(self.v, dw))
         t = w - self.d
         f = self.offset + 0.5 * float(np.dot(self.a * dw, dw)) + 0.5 * vd * vd + self.eps * float(np.sum(np.log1p(t * t)))
@@ -135,13 +138,13 @@ class Landscape:
 
 
 class SynthFCN:
-    def __init__(self, vm, seed, gauss=None, linear=False, centre=None):
+    def __init__(self, vm, seed, gauss=None, linear=False, centre=None, kind=None):
         import numpy as np
         self.np = np
         self.vm = vm
         self.cached_nll = None
         self.n_call = 0
-        self.land = Landscape(list(vm.variables), {k: bool(v) for k, v in vm.complex_vars.items()}, seed, gauss, linear, centre)
+        self.land = Landscape(list(vm.variables), {k: bool(v) for k, v in vm.complex_vars.items()}, seed, gauss, linear, centre, kind)
         self.bnd_seen = None  # names that had a registered bound transform at some evaluation since the harness reset it
         self.trace = []  # ('set', values of all names after the move) per evaluation, used by the search oracle
 
